@@ -41,7 +41,9 @@ Inductive rop :=
 | RSendOrClose     (* sendMessage; on error beginClosing and return (connection_ack, first keep-alive) *)
 | RBegin           (* beginClosing *)
 | RSpawn           (* HandleStart, subscription: subscriptions[id] = stream; go func(){ Run; SendComplete }() *)
-| RStop (i : nat). (* HandleStop / release of an ended entry: Stop() of stream i, delete(subscriptions, id) *)
+| RStop (i : nat)  (* HandleStop / release of an ended entry: Stop() of stream i, delete(subscriptions, id) *)
+| RWaitCancel.     (* a handler callback (init callback, resolver) that returns only when the handler's context is
+                      cancelled: an operation waiting for a backend with the request's context *)
 
 Inductive rstate := RIdle (* in ReadMessage *) | RBusy (prog : list rop) (* in handleMessage *) | RDone.
 
@@ -90,6 +92,7 @@ Inductive alabel :=
 | EClientClose | EDrop | EAppClose | ETickFail
 (* read loop *)
 | IReadFail | IRSendOk | IRSendFail | IRBegin | IRSpawn | IRStop | IRReturn
+| IRCancelled   (* a callback waiting for the cancellation of the handler's context returns: beginClosing has called Cancel() *)
 (* subscription goroutine i *)
 | IGCancel (i : nat) | IGEnd (i : nat) | IGDataOk (i : nat) | IGDataFail (i : nat)
 | IGCompleteOk (i : nat) | IGCompleteFail (i : nat)
@@ -138,6 +141,12 @@ Definition writer_exit (c : cfg) : cfg :=
   {| rd := rd c; gs := gs c; wr := WFinish; ac := ac c; queue := queue c; closemsg := closemsg c; closing := closing c;
      close_received := close_received c; pending_close := pending_close c; dropped := dropped c;
      conn_closed := true; finished := finished c; registered := registered c |}.
+
+(** [fixed = true] (current code): the write loop begins closing on its way out ([defer c.beginClosing]), so the
+    handler's context is cancelled however the write loop ends; before the repair (write loop ended by a write
+    error: nobody had begun closing) it did not. *)
+Definition writer_out (fixed : bool) (c : cfg) : cfg :=
+  if fixed then begin_closing (writer_exit c) else writer_exit c.
 
 Definition stop_gor (g : gor) : gor :=
   if g_inmap g then
@@ -220,7 +229,7 @@ Section Actors.
                     dropped := dropped c1; conn_closed := conn_closed c1; finished := finished c1; registered := false |}
         | _ => None
         end
-    | ETickFail => match wr c with WLoop => Some (writer_exit c) | _ => None end
+    | ETickFail => match wr c with WLoop => Some (writer_out fixed c) | _ => None end
     (* ---- read loop ---- *)
     | IReadFail =>
         match rd c with
@@ -250,6 +259,9 @@ Section Actors.
     | IRSpawn => match rd c with RBusy (RSpawn :: prog) => Some (with_rd (RBusy prog) (with_gs (gs c ++ [new_gor]) c)) | _ => None end
     | IRStop => match rd c with RBusy (RStop i :: prog) => Some (with_rd (RBusy prog) (with_gs (upd i stop_gor (gs c)) c)) | _ => None end
     | IRReturn => match rd c with RBusy [] => Some (with_rd RIdle c) | _ => None end
+    | IRCancelled =>
+        (* beginClosing: sync.Once { ...; Handler.Cancel() }: the context is cancelled exactly when closing has begun *)
+        match rd c with RBusy (RWaitCancel :: prog) => if closing c then Some (with_rd (RBusy prog) c) else None | _ => None end
     (* ---- subscription goroutines ---- *)
     | IGCancel i => on_gor i c (fun g => gphase_is GRun g && g_cancelled g) (set_phase GComplete) (fun x => x)
     | IGEnd i => on_gor i c (fun g => gphase_is GRun g && g_srcclosed g) (set_phase GComplete) (fun x => x)
@@ -259,7 +271,7 @@ Section Actors.
     | IGCompleteFail i => if can_give_up c then on_gor i c (gphase_is GComplete) (set_phase GDone) (fun x => x) else None
     (* ---- write loop ---- *)
     | IWTakeOk => match wr c, queue c with WLoop, S q => Some (with_queue q c) | _, _ => None end
-    | IWTakeFail => match wr c, queue c with WLoop, S q => Some (writer_exit (with_queue q c)) | _, _ => None end
+    | IWTakeFail => match wr c, queue c with WLoop, S q => Some (writer_out fixed (with_queue q c)) | _, _ => None end
     | IWCloseMsg =>
         match wr c with
         | WLoop => if closemsg c then
@@ -269,11 +281,11 @@ Section Actors.
                    else None
         | _ => None
         end
-    | IWCloseRecv => match wr c with WLoop => if close_received c then Some (writer_exit c) else None | _ => None end
+    | IWCloseRecv => match wr c with WLoop => if close_received c then Some (writer_out fixed c) else None | _ => None end
     | IWDrainOk => match wr c, queue c with WDrain, S q => Some (with_queue q c) | _, _ => None end
     | IWDrainFail => match wr c, queue c with WDrain, S q => Some (with_wr WWait (with_queue q c)) | _, _ => None end
     | IWDrainDone => match wr c, queue c with WDrain, 0 => Some (with_wr WWait c) | _, _ => None end
-    | IWWaitDone => match wr c with WWait => Some (writer_exit c) | _ => None end
+    | IWWaitDone => match wr c with WWait => Some (writer_out fixed c) | _ => None end
     | IWFinish => match wr c with WFinish => if reader_done c then Some (with_wr WDone (finish_once c)) else None | _ => None end
     (* ---- Close() ---- *)
     | IAFinish => match ac c with AWait => if reader_done c && writer_done c then Some (with_ac ADone (finish_once c)) else None | _ => None end
@@ -298,10 +310,18 @@ Section Actors.
       server has closed its socket *)
   Definition ending (c : cfg) : bool := closing c || pending_close c || dropped c || conn_closed c.
 
+  (** the read loop is in a handler call that returns only upon cancellation (now or later in this call) *)
+  Definition is_wait (o : rop) : bool := match o with RWaitCancel => true | _ => false end.
+  Definition waits (c : cfg) : bool := match rd c with RBusy prog => existsb is_wait prog | _ => false end.
+  (** the connection is on its way out and will get there by itself: closing has begun (the handler's context is
+      cancelled), or it is ending in another way and the read loop is not inside a call that waits for a cancellation
+      (if it is, the way out starts when the write loop fails a write and exits, which begins closing) *)
+  Definition settling (c : cfg) : bool := closing c || (ending c && negb (waits c)).
+
   (** all internal labels that could possibly apply to a configuration with n goroutines and a read
       loop program (used to state "no internal step is enabled" executably) *)
   Definition internal_labels (n : nat) : list alabel :=
-    [IReadFail; IRSendOk; IRSendFail; IRBegin; IRSpawn; IRStop; IRReturn;
+    [IReadFail; IRSendOk; IRSendFail; IRBegin; IRSpawn; IRStop; IRReturn; IRCancelled;
      IWTakeOk; IWTakeFail; IWCloseMsg; IWCloseRecv; IWDrainOk; IWDrainFail; IWDrainDone; IWWaitDone; IWFinish; IAFinish] ++
     flat_map (fun i => [IGCancel i; IGEnd i; IGDataOk i; IGDataFail i; IGCompleteOk i; IGCompleteFail i]) (seq 0 n).
   Definition stuck (c : cfg) : bool :=
